@@ -156,12 +156,31 @@ def stacked():
             state["relaxed"] = (await relaxed(), loop.time() - t0)
         except BaseException as e:  # noqa
             state["relaxed"] = (repr(e), loop.time() - t0)
+        # a deadline of zero (a falsy number) around a wrapper / a callable object that carries a `_timeout` of its own
+        class Fetcher:
+            def __init__(self):
+                self._timeout = 30
+
+            async def __call__(self):
+                await asyncio.sleep(2.0)
+                return "fetched"
+        for label, inner in (("timeout(0)(timeout(5)(f))", timeout(5)(fn)), ("timeout(0)(callable object with its own _timeout)", Fetcher())):
+            t0 = loop.time()
+            try:
+                state[label] = ("returned", await timeout(0)(inner)(), loop.time() - t0)
+            except TimeoutError:
+                state[label] = ("timeout", loop.time() - t0)
+            except BaseException as e:  # noqa
+                state[label] = (repr(e), loop.time() - t0)
     try:
         run(main)
     except Hang as h:
         return f"stacked timeouts: {h}"
     if state.get("strict") != ("timeout", 1.0):
         return f"timeout(1)(timeout(10)(f)) with a 5s function: {state.get('strict')}, expected TimeoutError at 1.0"
+    for label in ("timeout(0)(timeout(5)(f))", "timeout(0)(callable object with its own _timeout)"):
+        if state.get(label) != ("timeout", 0.0):
+            return f"{label}: {state.get(label)}, expected TimeoutError at the deadline 0.0"
     if state.get("relaxed") != ("done", 5.0):
         return (f"timeout(10)(f) called directly after it was also wrapped in timeout(1): {state.get('relaxed')}, expected the "
                 f"function's own result after 5.0 (its deadline is 10)")
